@@ -256,7 +256,7 @@ fn c08_state(s: &State, rep: &mut Reporter, c: &mut Counters) {
 /// value = 2^w - 1 (legal) vs 2^w (illegal) for every numeric rule and w in 1..=64
 fn boundary_sweep_states() -> Vec<State> {
     let mut out = vec![];
-    let mut push = |d: Desc| out.push(State { family: "SWEEP", depth: 0, desc: d });
+    let mut push = |d: Desc| out.push(State { family: "SWEEP", depth: 0, desc: std::sync::Arc::new(d) });
     for w in 1..=64u64 {
         let max = max_of_width(w);
         let mut vals = vec![max];
